@@ -504,7 +504,11 @@ fn operand_probe(rep: &mut Report, rng: &mut Rng, next_id: &mut u64) {
     let (y, _) = OPERANDS[rng.below(OPERANDS.len())];
     let op = OPS[rng.below(OPS.len())];
     let form = rng.below(4);
+    // sometimes one operand is a bare literal / member instead of a call: the call on the other side is still made
+    let bare = rng.below(4);
     let text = match form {
+        0 if bare == 0 => format!("{} {} r2({})", x, op, y),
+        0 if bare == 1 => format!("r1({}) {} {}", x, op, y),
         0 => format!("r1({}) {} r2({})", x, op, y),
         1 => format!("recs[?r1({}) {} r2({})] | [0]", x, op, y),
         2 => format!("[r1({}), r2({})]", x, y),
@@ -516,7 +520,11 @@ fn operand_probe(rep: &mut Report, rng: &mut Rng, next_id: &mut u64) {
         (0, "||") | (1, "||") => !xt,
         _ => true,
     };
-    let want: Vec<u64> = if right_runs { vec![i1, i2] } else { vec![i1] };
+    let want: Vec<u64> = match (form, bare) {
+        (0, 0) => if right_runs { vec![i2] } else { vec![] },
+        (0, 1) => vec![i1],
+        _ => if right_runs { vec![i1, i2] } else { vec![i1] },
+    };
     rep.evaluations += 1;
     LOG.with(|l| l.borrow_mut().clear());
     let got = guarded(|| rt.compile(&text).and_then(|e| e.search(rcvar_of(&doc))));
